@@ -99,7 +99,7 @@ Fixpoint pmodel (lims : list (Z * Z * bool)) (st : pstate) (ops : list xpop) : b
   end.
 
 (* ------------------------------------------------------------------ period: the property on observations *)
-(* codes only; a take during a Redis failure must simply not be reported as admitted *)
+(* codes only; a take during a Redis failure must simply not be reported as let through *)
 Fixpoint wtakes (n : nat) (t : Z) (k : nat) (q w : Z) (ws : windows) : windows * list Z :=
   match n with
   | O => (ws, [])
@@ -194,7 +194,7 @@ Fixpoint sallows (g : nat) (rate burst : Z) (s : sst) (n : Z) : sst * Z :=
             let (s2, k) := sallows g' rate burst s1 n in (s2, if d then k + 1 else k)
   end.
 
-(* admitted events from second s0 on never exceed burst + rate * elapsed seconds *)
+(* events let through from second s0 on never exceed burst + rate * elapsed seconds *)
 Fixpoint bound_from (rate burst s0 acc : Z) (evs : list (Z * Z * bool)) : bool :=
   match evs with
   | [] => true
